@@ -365,6 +365,25 @@ func NamespaceIdentifierName(namespace string) string {
 	return formatting.ToSnakeCase(strings.ReplaceAll(namespace, ".", "::"))
 }
 
+// Namespaces that the generated code and the headers it includes already use
+var reservedNamespaceNames = map[string]bool{
+	"binary": true,
+	"hdf5":   true,
+	"ndjson": true,
+	"std":    true,
+	"yardl":  true,
+}
+
+// Returns an error if the C++ namespace derived from the yardl namespace would
+// be a reserved word or clash with a namespace of the generated code
+func ValidateNamespaceName(namespace string) error {
+	identifier := NamespaceIdentifierName(namespace)
+	if _, reserved := reservedNames[identifier]; reserved || reservedNamespaceNames[identifier] {
+		return fmt.Errorf("the namespace '%s' cannot be used for C++ code generation because '%s' is reserved", namespace, identifier)
+	}
+	return nil
+}
+
 func TypeNamespaceIdentifierName(t dsl.TypeDefinition) string {
 	return NamespaceIdentifierName(t.GetDefinitionMeta().Namespace)
 }
